@@ -12,13 +12,14 @@ from . import dsl
 
 
 class Prim:
-    __slots__ = ("key", "var", "dom", "owner", "is_bool")
+    __slots__ = ("key", "var", "dom", "owner", "is_bool", "cond")
 
-    def __init__(self, key, var, dom, owner=None):
+    def __init__(self, key, var, dom, owner=None, cond=None):
         self.key = key
         self.var = var
         self.dom = dom
         self.owner = owner  # task id whose scheduled flag gates this primary (None = always active)
+        self.cond = cond  # key of a boolean primary that must be True for this one to be active
         self.is_bool = isinstance(dom[0], bool)
 
 
@@ -26,7 +27,7 @@ def time_dom(H):
     return list(range(-1, H + 2))
 
 
-def primaries(built, H=None, sel_prims=True, applied_prims=True, extra=None, dur_dom=None):
+def primaries(built, H=None, sel_prims=True, applied_prims=True, extra=None, dur_dom=None, busy_prims=False):
     """List the primary unknowns of a built program in exploration order."""
     program = built.program
     if H is None:
@@ -71,6 +72,26 @@ def primaries(built, H=None, sel_prims=True, applied_prims=True, extra=None, dur
                 own = tid if tid in optional_ids else None
                 prims.append(Prim(("bs", tid, rid), bs, tdom, own))
                 prims.append(Prim(("be", tid, rid), be, tdom, own))
+    # 4b. on demand: the busy bounds of static and selected assignments as well (reported assignment intervals)
+    if busy_prims:
+        for (tid, rid, dyn, di, eo) in reqs:
+            d = dd.get(rid)
+            own = tid if tid in optional_ids else None
+            if d is None or dyn:
+                continue
+            if d["cls"] == "Worker":
+                bs, be = built.obj(rid)._busy_intervals[built.obj(tid)]
+                prims.append(Prim(("bs", tid, rid), bs, tdom, own))
+                prims.append(Prim(("be", tid, rid), be, tdom, own))
+            elif d["cls"] == "SelectWorkers":
+                for wref in d["args"]["list_of_workers"]:
+                    wid = wref["$"]
+                    if dd[wid]["cls"] != "Worker":
+                        continue
+                    bs, be = built.obj(wid)._busy_intervals[built.obj(tid)]
+                    # only explored when the worker is selected (an unselected worker sits at an internal point)
+                    prims.append(Prim(("bs", tid, wid), bs, tdom, own, cond=("sel", rid, wid)))
+                    prims.append(Prim(("be", tid, wid), be, tdom, own, cond=("sel", rid, wid)))
     # 5. free horizon
     if program.get("horizon") is None:
         prims.append(Prim(("horizon",), built.pb._horizon, list(range(0, H + 2))))
@@ -105,6 +126,8 @@ def explore(zsolver, prims, stats=None, max_checks=None):
     last = [None]
 
     def active(p):
+        if p.cond is not None and not assign.get(p.cond, False):
+            return False
         return p.owner is None or assign.get(("sched", p.owner), True)
 
     def rec(i):
@@ -193,8 +216,8 @@ def box_size(prims):
         on = {p.key[1]: c for p, c in zip(sched, combo)}
         m = 1
         for p in prims:
-            if p.key[0] == "sched":
-                continue
+            if p.key[0] == "sched" or p.cond is not None:
+                continue  # (conditional dimensions are not counted: a lower bound of the box size)
             if p.owner is None or on.get(p.owner, True):
                 m *= len(p.dom)
         total += m
